@@ -304,6 +304,12 @@ package types
 //@ (define-fun blimBytes ((id Int) (n Int)) (Slice Int) (marshal.beacon.BeaconStorageLimit (mk.beacon.BeaconStorageLimit id n)))
 //@ (define-fun isTsKey ((k beacon.Key)) Bool ((_ is kTs) k))
 //@ (define-fun tsKeyId ((k beacon.Key)) Int (kTs.id k))
+//@ (define-fun tsKeyT ((k beacon.Key)) Int (kTs.t k))
+//@ ;;@ need-type github.com/unification-com/mainchain/x/beacon/types.BeaconTimestampGenesisExport
+//@ ; the genesis form of a timestamp: id, submit time, hash
+//@ (define-fun tsExp ((b beacon.BeaconTimestamp)) beacon.BeaconTimestampGenesisExport
+//@   (mk.beacon.BeaconTimestampGenesisExport (beacon.BeaconTimestamp.TimestampId b) (beacon.BeaconTimestamp.SubmitTime b) (beacon.BeaconTimestamp.Hash b)))
+//@ (define-fun tsKeyId ((k beacon.Key)) Int (kTs.id k))
 //@ (define-fun isBeaconKey ((k beacon.Key)) Bool ((_ is kBeacon) k))
 //@ (define-fun isBLimitKey ((k beacon.Key)) Bool ((_ is kBLimit) k))
 //@ end
